@@ -103,7 +103,7 @@ COMPLETE content `ds.flatten`. -/
 theorem with_commit_complete {s0 s : State} (h0 : Initial s0) (i : Nat) {fs pm fin : Bool}
     {ds : List Bytes} (hi : s0.actors i = withCaller fs pm ds fin) (h : Reach gitFile s0 s)
     {c : Bytes} (hc : (s.actors i).committed = some c) : c = ds.flatten := by
-  obtain ⟨hph, _, _⟩ := reach_with (WB.of_bool gitFile_wellBehaved) h0 i hi h
+  obtain ⟨hph, _, _⟩ := reach_with (WB.of_bool gitFile_wellBehaved) False (fun x => x.elim) h0 i hi h
   cases hph with
   | start _ _ _ _ h5 => rw [h5] at hc; simp at hc
   | writing _ _ _ _ _ _ _ _ h5 _ => rw [h5] at hc; simp at hc
@@ -159,7 +159,7 @@ theorem failed_write_keeps_old {s0 s : State} (h0 : Initial s0) (i : Nat) {fs pm
   have hnone : ∀ t, Reach gitFile (step gitFile s i f) t → (t.actors i).committed = none := by
     intro t ht
     have hr := hreach t ht
-    exact (reach_with hP h0 i hi hr).1.committed_none_of_failed
+    exact (reach_with hP False (fun x => x.elim) h0 i hi hr).1.committed_none_of_failed
       ((reach_Inv hP h0 hr).actors i) (hF t ht)
   have hinv' := reach_Inv hP h0 (hreach s' h')
   refine ⟨hnone s' h', fun g heq => ?_, fun hd hfin hrm => ?_⟩
@@ -168,7 +168,7 @@ theorem failed_write_keeps_old {s0 s : State} (h0 : Initial s0) (i : Nat) {fs pm
     rw [step_actor_self] at h1
     obtain ⟨_, hrp, _, _⟩ := actorStep_eff hP s'.fs.lock.isSome g (hinv'.actors i)
     rw [(hrp heq).2.2.2] at h1; simp at h1
-  · obtain ⟨hph, _, hcfg⟩ := reach_with hP h0 i hi (hreach s' h')
+  · obtain ⟨hph, _, hcfg⟩ := reach_with hP False (fun x => x.elim) h0 i hi (hreach s' h')
     have hC : (s'.actors i).hC = [.abort] := by
       rw [hcfg, hfin]; simp [withCaller, Actor.init, Gen.Lock.delAborts]
     have hown : (s'.actors i).owns = false := by
@@ -180,7 +180,7 @@ theorem failed_write_keeps_old {s0 s : State} (h0 : Initial s0) (i : Nat) {fs pm
       | handler _ _ _ h4 =>
         rcases h4 with h4 | ⟨_, h4⟩
         · rw [h4] at hd; simp at hd
-        · rcases h4 hC with h5 | h5
+        · rcases h4 (Or.inl hC) with h5 | h5
           · rcases hinv'.actors i with hn | hr
             · exact hn.2.1
             · rw [hr.1.owns_eq, h5]; rfl
@@ -201,7 +201,7 @@ theorem with_done_releases {s0 s : State} (h0 : Initial s0) (i : Nat) {fs pm : B
     (s.actors i).owns = false := by
   have hP := WB.of_bool gitFile_wellBehaved
   have hinv := reach_Inv hP h0 h
-  obtain ⟨hph, _, hcfg⟩ := reach_with hP h0 i hi h
+  obtain ⟨hph, _, hcfg⟩ := reach_with hP False (fun x => x.elim) h0 i hi h
   have hC : (s.actors i).hC = [.abort] := by
     rw [hcfg]; simp [withCaller, Actor.init, Gen.Lock.delAborts]
   cases hph with
@@ -212,7 +212,7 @@ theorem with_done_releases {s0 s : State} (h0 : Initial s0) (i : Nat) {fs pm : B
   | handler _ _ _ h4 =>
     rcases h4 with h4 | ⟨_, h4⟩
     · rw [h4] at hd; simp at hd
-    · rcases h4 hC with h5 | h5
+    · rcases h4 (Or.inl hC) with h5 | h5
       · rcases hinv.actors i with hn | hr
         · exact hn.2.1
         · rw [hr.1.owns_eq, h5]; rfl
@@ -221,6 +221,48 @@ theorem with_done_releases {s0 s : State} (h0 : Initial s0) (i : Nat) {fs pm : B
     rcases hinv.actors i with hn | hr
     · exact hn.2.1
     · rw [hr.1.owns_eq, h5 hr.1.opened]; rfl
+
+/-- The repaired close(), proved before it is written: for ANY program that passes the check and
+in addition aborts on every failure inside close() (`abortsOnAnyCloseFailure`: the rename AND the
+flush/fsync/chmod before it inside `try … finally: self.abort()`), a with-caller that is done
+holds no lock — whether or not its handle was ever finalised — unless an unlink was made to fail.
+(For the program as it is now the premise is false, see
+`with_close_fault_leaves_lock_counterexample`; the premise is decidable and evaluated on
+`gitFile` by the driver, so the theorem applies by itself once the source is repaired.) -/
+theorem close_failure_releases_lock (P : Program) (hP : P.wellBehaved = true)
+    (hA : P.abortsOnAnyCloseFailure = true) {s0 s : State} (h0 : Initial s0) (i : Nat)
+    {fs pm fin : Bool} {ds : List Bytes} (hi : s0.actors i = withCaller fs pm ds fin)
+    (h : Reach P s0 s) (hd : (s.actors i).pc = .done) (hrm : (s.actors i).rmFailed = false) :
+    (s.actors i).owns = false ∧ s.fs.lock ≠ some i := by
+  have hW := WB.of_bool hP
+  have hinv := reach_Inv hW h0 h
+  obtain ⟨hph, _, _⟩ := reach_with hW True (fun _ => hA) h0 i hi h
+  have hown : (s.actors i).owns = false := by
+    cases hph with
+    | start h1 _ _ _ _ => rw [h1] at hd; simp at hd
+    | writing _ _ _ h1 _ _ _ _ _ _ => rw [h1] at hd; simp at hd
+    | closing h1 _ _ _ _ => rcases h1 with h1 | ⟨_, _, _, h1⟩ <;> rw [h1] at hd <;> simp at hd
+    | failedRm h1 _ _ _ => rw [h1] at hd; simp at hd
+    | handler _ _ _ h4 =>
+      rcases h4 with h4 | ⟨_, h4⟩
+      · rw [h4] at hd; simp at hd
+      · rcases h4 (Or.inr trivial) with h5 | h5
+        · rcases hinv.actors i with hn | hr
+          · exact hn.2.1
+          · rw [hr.1.owns_eq, h5]; rfl
+        · rw [hrm] at h5; simp at h5
+    | finished _ _ _ _ h5 =>
+      rcases hinv.actors i with hn | hr
+      · exact hn.2.1
+      · rw [hr.1.owns_eq, h5 hr.1.opened]; rfl
+  refine ⟨hown, fun hl => ?_⟩
+  have := hinv.lockHasOwner i hl
+  rw [hown] at this; simp at this
+
+/-- the premises of `close_failure_releases_lock` are satisfiable: the program with the calls of
+close() moved inside the try passes both checks -/
+example : let P : Program := { gitFile with closePre := gitFile.closePre.map (fun p => (p.1, true)) }
+    P.wellBehaved = true ∧ P.abortsOnAnyCloseFailure = true := by decide
 
 /-! ## 4. negation witnesses (concrete schedules, evaluated by the kernel) -/
 
@@ -267,16 +309,27 @@ theorem old_schedule_harmless_now :
       stepOut gitFile (run gitFile three (oldDefectSchedule.take 7)) 2 false = .exists := by
   decide
 
-/-- A finding the proof forced into the open (F-C07-close-fault-before-rename-leaves-lock): in
-close() the flush/fsync/chmod come before the `try … finally: self.abort()`.  A single
+/-- A finding the proof forced into the open (F-C07-close-fault-before-rename-leaves-lock): with
+flush/fsync/chmod of close() BEFORE the `try … finally: self.abort()` (`gitFilePreOutsideTry`,
+which is the program as recorded — see `closePre` in Gen/Lock.lean for the current flags), a single
 `with GitFile(...)` caller whose fsync fails is done — the exception has left the `with` block —
 and still holds the lock; only finalisation of the handle (`fin = true` in
 `failed_write_keeps_old`) releases it. -/
 theorem with_close_fault_leaves_lock_counterexample :
-    let s := run gitFile (State.ofList true [withCaller true false [A] false])
+    let s := run gitFilePreOutsideTry (State.ofList true [withCaller true false [A] false])
       [(0, false), (0, false), (0, false), (0, true)]
     (s.actors 0).pc = .done ∧ (s.actors 0).owns = true ∧ s.fs.lock = some 0 ∧
       (s.actors 0).rmFailed = false := by
+  decide
+
+/-- … and with those calls INSIDE the try (the proposed repair) the same run ends with the lock
+released, although the handle was never finalised. -/
+theorem with_close_fault_releases_when_pre_in_try :
+    let P : Program := { gitFile with closePre := gitFile.closePre.map (fun p => (p.1, true)) }
+    let s := run P (State.ofList true [withCaller true false [A] false])
+      [(0, false), (0, false), (0, false), (0, true), (0, false)]
+    P.wellBehaved = true ∧ (s.actors 0).pc = .done ∧ (s.actors 0).owns = false ∧ s.fs.lock = none ∧
+      content s [0] = some [0] := by
   decide
 
 /-- F-C07-index-write-error-path-renames (DESIGN §7 F7): a caller whose error handler calls
